@@ -766,17 +766,10 @@ func record(b *tv.Batch, cs Case, r run, full bool) int {
 }
 
 func lenClass(cs Case) string {
-	switch {
-	case cs.InLen == 0:
+	if cs.InLen == 0 {
 		return "len0"
-	case cs.InLen < 8:
-		return "len<8"
-	case cs.InLen%16 == 0:
-		return "len%16=0"
-	case cs.InLen%8 == 0:
-		return "len%8=0"
 	}
-	return "len-other"
+	return "len>0"
 }
 
 // findingKey: the finding class comes from the monitor (why); the rest names
